@@ -239,11 +239,14 @@ MkProbeX(d, s) ==
 XFields == [lT : {FALSE}, gs : {"none"}, scl : {"s0"}, when : {"before"}]
 SpaceX ==
   CASE Family = "C10" ->
-         {s \in [rhs : {"R2", "R3", "R6"}, meth : {"MS", "SS", "DC"}, intg : {"rk", "radau2"}, N : 2..3, M : 1..2, grid : {"uni", "geo"},
-                 hz : {"num", "fb"}, seed : {Seed}, cons : {<<>>}, obj : {<<>>}, lT : {FALSE}, gs : GuessIds, scl : {"s0"},
+         {s \in [rhs : {"R2", "R3", "R6"}, meth : {"MS", "SS", "DC"}, intg : {"rk", "radau2"}, N : 2..3, M : 1..2, grid : {"uni", "geo", "free"},
+                 hz : {"num", "fb"}, seed : {Seed}, cons : {<<>>}, obj : {<<>>}, lT : BOOLEAN, gs : GuessIds, scl : {"s0"},
                  when : {"before", "after", "split"}] :     \* split: the last guess is given after a transcription, the others before
               /\ (s.meth = "DC" <=> s.intg = "radau2") /\ (s.rhs = "R6" => s.meth = "DC")
-              /\ (s.when = "split" => s.gs \in {"twice", "mix", "Tfirst", "z"})}
+              /\ (s.when = "split" => s.gs \in {"twice", "mix", "Tfirst", "z"})
+              \* localized / free grids: their own time variables start on the guessed grid
+              /\ (s.lT \/ s.grid = "free" => s.rhs = "R2" /\ s.when = "before" /\ s.gs \in {"none", "xe", "T", "t0", "mix"})
+              /\ (s.grid = "free" => ~s.lT)}
     [] Family = "C14" ->
          {s \in [rhs : {"R2", "R3", "R6"}, meth : {"MS", "SS", "DC"}, intg : {"rk", "radau2"}, N : 1..2, M : 1..2, grid : {"uni", "geo"},
                  hz : {"num", "fb"}, seed : {Seed}, cons : {<<"k1", "k3", "k4">>, <<"k7", "k5">>}, obj : {<<"o1", "o3">>, <<"o6">>}, lT : {FALSE},
